@@ -885,7 +885,7 @@ def load_own_findings(ck):
     maintainer has merged them into known_findings.json"""
     f = core.VERIF / "findings.d" / "C27.json"
     if f.exists():
-        have = {k["id"] for k in ck._known}
+        have = {k["id"] for k in core.load_known()}      # merged entries (open or fixed) take precedence
         for k in json.loads(f.read_text()):
             if k["id"] not in have and k.get("status") == "open" and k["property"] == PID:
                 ck._known.append(k)
